@@ -31,6 +31,8 @@ pub struct BroadCfg {
     pub dup_names: bool,
     /// decorated groups whose first member is hidden; groups that contain commands
     pub odd_groups: bool,
+    /// levels sometimes carry `fallback_to_usage()`
+    pub usage_fallback: bool,
     /// catch on optional/many/some
     pub catch: bool,
 }
@@ -67,6 +69,7 @@ impl Default for BroadCfg {
             wrapped_groups: false,
             dup_names: false,
             odd_groups: false,
+            usage_fallback: false,
             catch: false,
         }
     }
@@ -487,6 +490,9 @@ fn gen_info(u: &mut Un, names: &mut Names, cfg: &BroadCfg, depth: usize) -> Info
         }
         longs.push(names.long(u));
         info.help_names = Some((shorts, longs));
+    }
+    if cfg.usage_fallback && u.chance(50) {
+        info.fallback_to_usage = true;
     }
     info
 }
